@@ -345,4 +345,13 @@ def PulsesTame (g : Graph) : Bool :=
 
 end RoundTrip
 
+/-! ## Graph → ms → graph with the same deme names (C09 §7) -/
+
+/-- the demes are listed by non-increasing start time (oldest first): the order in which `from_ms` returns
+its demes (`Builder._sort_demes_by_ancestry`, a stable sort on `start_time`, descending).  A valid graph lists
+every deme after its ancestors, which is weaker: `A`, `B` (from `A` at time 4), `C` (from the infinite past)
+is valid and not `StartsSorted`. -/
+def StartsSorted (g : Graph) : Bool :=
+  pairwiseB (fun a b => decide (b.startTime ≤ a.startTime)) g.demes
+
 end Demes.Spec.C09
